@@ -702,6 +702,9 @@ Fixpoint copy_submodels (K : consts) (h : heap) (cs : list (Z * val)) : option (
   | (_, VS _) :: _ => None
   end.
 
+Definition linker_name (K : consts) (o : obj) : Z :=
+  match cell_get (A N_name) (ocells o) with Some (VS z) => z | _ => k_linker_name K end.
+
 Definition linker_copy_M (K : consts) (h : heap) (r : loc) : option (heap * loc) :=
   match nth_error h r with
   | None => None
@@ -716,7 +719,11 @@ Definition linker_copy_M (K : consts) (h : heap) (r : loc) : option (heap * loc)
         | Some (h1, cs') =>
           let d' := length h1 in
           let h2 := h1 ++ [mkObj KDict cs'] in
-          let i := init_M h2 c K (linker_iargs h2 K d' (k_linker_name K)) in
+          (* fix c17e74a: the constructor gets the ORIGINAL's name (name=copy.deepcopy(self.__dict__['name'])), not the default;
+             since f5ef8bd it raises DuplicateNameError when the name is also a submodel identifier *)
+          let nme := linker_name K o in
+          let i := init_M h2 c K (linker_iargs h2 K d' nme) in
+          if has_key nme cs' then None else
           if snd i then
             match dc_entries_pol (k_single_memo K) (fst (fst i)) (filter (fun kv => negb (fst kv =? A N_submodels)) (ocells o)) with
             | None => None
@@ -864,6 +871,7 @@ Inductive op : Type :=
                                                       creates aliasing between two entries of one object *)
 | OSetAttrNested (name : Z) (vss : list (list Z))  (* obj.name = [[..], [..]] : a list of lists (a fresh list holding fresh lists) *)
 | OSetAttrSet (name : Z) (vs : list Z)             (* obj.name = {..} : a set (the elements in a canonical order) *)
+| OSetAttrDict (name : Z) (kvs : list (Z * Z))     (* obj.name = {k: v, ..} : a dict of scalars *)
 | OReplaceSeries (name : Z) (vs : list Z).         (* obj.name = <ndarray> : an array is no Sequence, so __setattr__ writes its
                                                       VALUES in place (self._name[:] = value); a shape mismatch raises *)
 
@@ -963,6 +971,13 @@ Definition compile_op (K : consts) (h : heap) (r : loc) (o : op) : list action :
     else if zmem x (scalars_path h r [A N_attributes]) then [ASet [] (A x) s]
     else if own_scalar h r (A N_strict) =? k_false K then add_attribute_acts x s
     else []
+  | OSetAttrDict name kvs =>
+    let x := resolve_alias h r name in
+    let s := SFresh KDict kvs in
+    if zmem x (scalars_path h r [A N_index]) then []
+    else if zmem x (scalars_path h r [A N_attributes]) then [ASet [] (A x) s]
+    else if own_scalar h r (A N_strict) =? k_false K then add_attribute_acts x s
+    else []
   | OReplaceSeries name vs =>
     let x := resolve_alias h r name in
     if zmem x (scalars_path h r [A N_index]) then
@@ -1014,7 +1029,8 @@ Definition run_event (K : consts) (s : state) (e : event) : state :=
       let cells := flat_map (fun kj => match nth_error (sroots s) (snd kj) with Some l => [(fst kj, VR l)] | None => [] end) subs in
       let h1 := sh s ++ [mkObj KDict cells] in
       let i := init_M h1 c K (linker_iargs h1 K d name) in
-      mkSt (fst (fst i)) (sroots s ++ [snd (fst i)])
+      if has_key name cells then s        (* BaseLinker.__init__ (fix f5ef8bd): the name is also a submodel identifier: DuplicateNameError *)
+      else mkSt (fst (fst i)) (sroots s ++ [snd (fst i)])
     | None => s
     end
   | EReindex i span n' positions fills =>
